@@ -1258,6 +1258,8 @@ class Image(DataTensor):
 
     def narrow(self: TImage, dim: int, start: int, length: int) -> TImage:
         r"""Narrow image along specified dimension."""
+        if dim < 0:
+            dim += self.ndim
         batch = self.batch()
         batch = batch.narrow(dim + 1, start, length)
         return batch[0]
